@@ -2443,11 +2443,23 @@ class RangeExec:
         if isinstance(e, ast.Call):
             f = e.func
             name = pf.dotted(f) or ''
-            if name == 'dict' and not e.keywords and len(e.args) <= 1:
-                if not e.args:
-                    return RxD()
-                src = self.value(e.args[0], env, ref, w)
-                return RxD(src.items, src.rest) if isinstance(src, RxD) else RxD(rest=True)
+            if name == 'dict' and len(e.args) <= 1:
+                # dict() / dict(d) / dict(k=v, ...) / dict(d, k=v) / dict(**d)
+                d0 = RxD()
+                if e.args:
+                    src = self.value(e.args[0], env, ref, w)
+                    d0 = RxD(src.items, src.rest) if isinstance(src, RxD) else RxD(rest=True)
+                for k in e.keywords:
+                    if k.arg is None:
+                        src = self.value(k.value, env, ref, w)
+                        if isinstance(src, RxD):
+                            d0.items.update(src.items)
+                            d0.rest = d0.rest or src.rest
+                        else:
+                            d0.rest = True
+                    else:
+                        d0.items[k.arg] = self.value(k.value, env, ref, w)
+                return d0
             if name == 'str' and len(e.args) == 1 and not e.keywords:
                 v = self.value(e.args[0], env, ref, w)
                 return RxS(self.as_parts(v, e.args[0], env)) if isinstance(v, (RxE, RxS)) else RX_UNK
